@@ -221,7 +221,7 @@ func checkPath(c pathCase) (msg string, class string) {
 	}
 	p := obs.Parse([]byte("[" + text + ", (" + text + ") === null, (" + text + ") == null, null === (" + text + "), null == (" + text + "), (" + text + ") !== null, null != (" + text + ")]"))
 	if !p.OK() {
-		return fmt.Sprintf("HARNESS: %q does not parse: %v", text, p.Err), "harness"
+		return fmt.Sprintf("the path %q - names and '.' / '!.' only - is rejected by the parser: %v", text, p.Err), "rejected"
 	}
 	if c.Used {
 		// an earlier life of the tree, too: evaluated by another runner over another caller's record
@@ -714,6 +714,47 @@ func TestC16Embedded(t *testing.T) {
 						}
 					}
 				}
+			}
+		}
+	}
+	run.Exhaustive()
+}
+
+// c16Words: names that are words of other languages' operators and keywords - here they are names.
+var c16Words = []string{"and", "or", "not", "in", "is", "if", "else", "then", "let", "var", "new", "void", "undefined", "NaN", "Infinity", "mod", "div", "xor", "function", "return", "nil", "none", "True", "FALSE", "Null", "self", "it", "as", "of", "like", "between"}
+
+// TestC16WordNames: a key is a key whatever word it spells.
+func TestC16WordNames(t *testing.T) {
+	run := h.Begin("C16", "word-names", fmt.Sprintf("bounded-exhaustive: %d words that are operators or keywords elsewhere (and, or, not, in, is, if, mod, div, undefined, NaN, nil, self, ...) as top-level keys, as keys of a nested map, as missing keys and as missing names: the paths w, this.w, row.w, row!.w, w.k, absent.w, row.w!.k; oracle as in the grid; every case non-trivial", len(c16Words)))
+	defer run.End(t)
+	var idx int64
+	for _, w := range c16Words {
+		data := map[string]spec.V{
+			w:     {K: "int", S: "7"},
+			"row": {K: "map", M: map[string]spec.V{w: {K: "string", S: "in-row"}, "k": {K: "int", S: "1"}}},
+			"rec": {K: "map", M: map[string]spec.V{"k": {K: "map", M: map[string]spec.V{w: {K: "nil"}}}}},
+		}
+		for _, c := range []pathCase{
+			{Data: data, Root: w}, {Data: data, This: true, Root: w}, {Data: data, Root: "row", Steps: []pathStep{{w, false}}}, {Data: data, Root: "row", Steps: []pathStep{{w, true}}},
+			{Data: data, This: true, Root: "row", Steps: []pathStep{{w, false}}}, {Data: data, Root: w, Steps: []pathStep{{"k", false}}}, {Data: data, Root: "absent", Steps: []pathStep{{w, false}}},
+			{Data: data, Root: "rec", Steps: []pathStep{{"k", false}, {w, false}, {"k", true}}}, {Data: data, Root: "rec", Steps: []pathStep{{"k", true}, {w, true}}},
+			{Data: map[string]spec.V{"row": data["row"]}, Root: w}, {Data: map[string]spec.V{"row": data["row"]}, Root: w, Steps: []pathStep{{w, false}}}, {NoMap: true, Root: w},
+		} {
+			idx++
+			if !h.Mine(idx) || run.NViolations() >= 3 {
+				continue
+			}
+			msg, cls := checkPath(c)
+			if cls == "unspecified" {
+				run.Class("unspecified-skipped")
+				continue
+			}
+			run.Count(true, cls)
+			if idx%41 == 0 {
+				run.Sample(cls, c.text())
+			}
+			if msg != "" {
+				run.Fail("c16", c, msg)
 			}
 		}
 	}
